@@ -6,7 +6,7 @@
 id=$1; W=/tmp/sa/$id; O=/tmp/sa/$id-out
 set -x
 cd $W || exit 2
-git stash -q 2>/dev/null; git checkout -q -- . ; git status --short | grep -v '^??' 
+git checkout -q -- . ; git status --short | grep -v '^??' 
 git apply --check $O/patch.diff || { echo "PATCH DOES NOT APPLY"; exit 1; }
 # without the change
 cmake --build _build > /dev/null 2>&1
